@@ -1034,3 +1034,97 @@ Example same_peer_test_would_leak_stale_clids :
   exists pc oc, conn_id pc <> conn_id oc /\ conn_peer pc = conn_peer oc /\ goes_home HomeSamePeerTub pc oc = true /\
                 goes_home HomeSameConnection pc oc = false.
 Proof. exists {| conn_id := 1; conn_peer := 7 |}, {| conn_id := 2; conn_peer := 7 |}. cbn. repeat split; discriminate. Qed.
+
+(* ------------------------------------------------------------------ *)
+(* C08, gifts inside containers: the container is released exactly when every introduction it waits for is complete *)
+
+Lemma asyncand_init_spec : asyncand_init = CountBeforeSubscribing.
+Proof. reflexivity. Qed.
+
+Definition nfired (inputs : list bool) : Z := Z.of_nat (List.length (filter (fun b => b) inputs)).
+
+Lemma nfired_cons b r : nfired (b :: r) = (if b then 1 else 0) + nfired r.
+Proof. unfold nfired. cbn [filter]. destruct b; cbn [List.length]; lia. Qed.
+
+Lemma nfired_nonneg l : 0 <= nfired l.
+Proof. unfold nfired. lia. Qed.
+
+(* from remaining R the counter passes through 0 during n decrements iff 1 <= R <= n *)
+Lemma aand_subscribe_before inputs : forall s,
+  aa_remaining (aand_subscribe CountBeforeSubscribing s inputs) = aa_remaining s - nfired inputs /\
+  aa_fired (aand_subscribe CountBeforeSubscribing s inputs)
+  = aa_fired s || ((1 <=? aa_remaining s) && (aa_remaining s <=? nfired inputs)).
+Proof.
+  induction inputs as [|b r IH]; intros s; cbn [aand_subscribe].
+  - unfold nfired; cbn. split; [lia|]. destruct (aa_fired s); [reflexivity|]. cbn [orb].
+    destruct (1 <=? aa_remaining s) eqn:E1; [|reflexivity]. cbn [andb]. symmetry. apply Z.leb_gt. apply Z.leb_le in E1. lia.
+  - rewrite nfired_cons. pose proof (nfired_nonneg r) as Hn. destruct b.
+    + destruct (IH (aand_cb s)) as [I1 I2]. rewrite I1, I2. unfold aand_cb. cbn [aa_remaining aa_fired]. split; [lia|].
+      destruct (aa_fired s); [reflexivity|]. cbn [orb].
+      destruct (aa_remaining s - 1 =? 0) eqn:E0; destruct (1 <=? aa_remaining s) eqn:E1;
+        destruct (aa_remaining s <=? 1 + nfired r) eqn:E2; destruct (1 <=? aa_remaining s - 1) eqn:E3;
+        destruct (aa_remaining s - 1 <=? nfired r) eqn:E4; cbn [orb andb]; try reflexivity; exfalso;
+        repeat match goal with
+               | H : (_ =? _) = true |- _ => apply Z.eqb_eq in H
+               | H : (_ =? _) = false |- _ => apply Z.eqb_neq in H
+               | H : (_ <=? _) = true |- _ => apply Z.leb_le in H
+               | H : (_ <=? _) = false |- _ => apply Z.leb_gt in H
+               end; lia.
+    + destruct (IH s) as [I1 I2]. rewrite I1, I2. split; [lia|]. replace (0 + nfired r) with (nfired r) by lia. reflexivity.
+Qed.
+
+Lemma aand_complete_spec j : forall s,
+  aa_remaining (aand_complete s j) = aa_remaining s - Z.of_nat j /\
+  aa_fired (aand_complete s j) = aa_fired s || ((1 <=? aa_remaining s) && (aa_remaining s <=? Z.of_nat j)).
+Proof.
+  induction j as [|j IH]; intros s; cbn [aand_complete].
+  - split; [lia|]. destruct (aa_fired s); [reflexivity|]. cbn [orb].
+    destruct (1 <=? aa_remaining s) eqn:E1; [|reflexivity]. cbn [andb]. symmetry. apply Z.leb_gt. apply Z.leb_le in E1. lia.
+  - destruct (IH (aand_cb s)) as [I1 I2]. rewrite I1, I2. unfold aand_cb. cbn [aa_remaining aa_fired]. split; [lia|].
+    destruct (aa_fired s); [reflexivity|]. cbn [orb].
+    destruct (aa_remaining s - 1 =? 0) eqn:E0; destruct (1 <=? aa_remaining s) eqn:E1;
+      destruct (aa_remaining s <=? Z.of_nat (S j)) eqn:E2; destruct (1 <=? aa_remaining s - 1) eqn:E3;
+      destruct (aa_remaining s - 1 <=? Z.of_nat j) eqn:E4; cbn [orb andb]; try reflexivity; exfalso;
+      repeat match goal with
+             | H : (_ =? _) = true |- _ => apply Z.eqb_eq in H
+             | H : (_ =? _) = false |- _ => apply Z.eqb_neq in H
+             | H : (_ <=? _) = true |- _ => apply Z.leb_le in H
+             | H : (_ <=? _) = false |- _ => apply Z.leb_gt in H
+             end; lia.
+Qed.
+
+Lemma length_split_fired inputs : Z.of_nat (List.length inputs) = nfired inputs + Z.of_nat (npending inputs).
+Proof.
+  unfold nfired, npending. induction inputs as [|b r IH]; [reflexivity|]. cbn [filter List.length].
+  destruct b; cbn [negb List.length]; lia.
+Qed.
+
+(* whatever mixture of already-introduced and pending gifts a container holds, and however many of the pending
+   introductions have completed so far (j), the container is released iff ALL of them have completed *)
+Theorem container_waits_for_all_gifts inputs j :
+  (j <= npending inputs)%nat ->
+  aa_fired (aand_complete (aand_new asyncand_init inputs) j) = Nat.eqb j (npending inputs).
+Proof.
+  intros Hj. rewrite asyncand_init_spec. destruct inputs as [|b r].
+  - cbn in *. assert (j = 0)%nat by lia. subst. reflexivity.
+  - unfold aand_new. set (inp := b :: r) in *. set (s0 := {| aa_remaining := Z.of_nat (List.length inp); aa_fired := false |}).
+    destruct (aand_subscribe_before inp s0) as [S1 S2]. destruct (aand_complete_spec j (aand_subscribe CountBeforeSubscribing s0 inp)) as [_ C2].
+    rewrite C2, S2, S1. subst s0. cbn [aa_remaining aa_fired orb]. pose proof (length_split_fired inp) as L.
+    pose proof (nfired_nonneg inp). assert (0 < Z.of_nat (List.length inp)) by (subst inp; cbn [List.length]; lia).
+    destruct (Nat.eqb j (npending inp)) eqn:E.
+    + apply Nat.eqb_eq in E. subst j.
+      destruct (Z.of_nat (List.length inp) <=? nfired inp) eqn:A.
+      * rewrite (proj2 (Z.leb_le 1 _)) by lia. reflexivity.
+      * apply Z.leb_gt in A. cbn [andb]. rewrite Bool.andb_false_r. cbn [orb].
+        rewrite (proj2 (Z.leb_le 1 _)) by lia. rewrite (proj2 (Z.leb_le _ _)) by lia. reflexivity.
+    + apply Nat.eqb_neq in E.
+      assert (A : Z.of_nat (List.length inp) <=? nfired inp = false) by (apply Z.leb_gt; lia). rewrite A, Bool.andb_false_r. cbn [orb].
+      assert (B : Z.of_nat (List.length inp) - nfired inp <=? Z.of_nat j = false) by (apply Z.leb_gt; lia).
+      rewrite B, Bool.andb_false_r. reflexivity.
+Qed.
+
+(* the statement discriminates: counting the inputs while subscribing releases a container holding an already-introduced
+   gift followed by a pending one at once *)
+Example counting_while_subscribing_releases_early :
+  aa_fired (aand_new CountWhileSubscribing [true; false]) = true /\ npending [true; false] = 1%nat.
+Proof. split; reflexivity. Qed.
